@@ -387,7 +387,7 @@ def run_expr(desc) -> Result:
 register_family("expr", strategy=_expr_strategy, run=run_expr, fixed=_expr_fixed, weight=5)
 
 # further families live in their own modules, which call `register_family` when imported
-for _module in ("vp.checks.c15_models",):
+for _module in ("vp.checks.c15_models", "vp.checks.c15_custom"):
     try:
         importlib.import_module(_module)
     except ModuleNotFoundError as _exc:
